@@ -105,7 +105,10 @@ func JSONGetNaturalLanguageField(val *fastjson.Value, prop string) NaturalLangua
 	}
 	v := val.Get(prop)
 	if v == nil {
-		return nil
+		// NOTE: multiple language values are written (and sent by other implementations) as a "<prop>Map" language map
+		if v = val.Get(prop + "Map"); v == nil {
+			return nil
+		}
 	}
 	switch v.Type() {
 	case fastjson.TypeObject:
